@@ -1100,6 +1100,36 @@ def build(tier, seed):
     return scns
 
 
+CTXS = ('same_parser.', 'same_executor.', 'override.', 'after_override.')
+
+
+def _implied(key, fired):
+    """True if `key` is a consequence of a more basic key that fired too (the same defect seen through a reference, an array
+    formula, get_sheet, or in a multi-workbook / override context)"""
+    rest = key[len('C18.'):]
+    ctx = next((c for c in CTXS if rest.startswith(c)), '')
+    plain = rest[len(ctx):]
+    cands = ['C18.' + plain] if ctx else []
+    b = _base(plain)
+    if b != 'C18.' + plain:
+        cands.append(b)
+        if ctx:
+            cands.append('C18.' + ctx + b[len('C18.'):])
+    if any(c in fired for c in cands):
+        return True
+    if plain == 'get_sheet':
+        pre = tuple(p + x for p in {'C18.', 'C18.' + ctx} for x in ('constant.', 'sizes.', 'blank.'))
+        return any(k.startswith(pre) for k in fired)
+    return False
+
+
+def _base(rest):
+    for p in ('reference.', 'array_formula.'):
+        if rest.startswith(p):
+            return 'C18.constant.' + rest[len(p):]
+    return 'C18.' + rest
+
+
 def run(tier='quick', seed=0):
     t0 = time.time()
     scns = build(tier, seed)
@@ -1121,7 +1151,10 @@ def run(tier='quick', seed=0):
             size = _cells_of(scn) + 100 * (len(scn['books']) - 1)
             if k not in g['fails'] or size < g['fails'][k][0]:
                 g['fails'][k] = (size, res['idx'], w)
-    # one failure per key over all checks, minimised
+    # one failure per root cause: a key that only repeats, in a richer context, a key that fires anyway is dropped
+    fired = {k for g in agg.values() for k in g['fails']}
+    for g in agg.values():
+        g['fails'] = {k: v for k, v in g['fails'].items() if not _implied(k, fired)}
     seen = set()
     checks = []
     total = time.time() - t0
